@@ -89,46 +89,70 @@ func runMulti(c *multiCase, rounds int) (msg string, infra error) {
 	for round := 0; round < rounds; round++ {
 		dir := filepath.Join(base, fmt.Sprintf("r%d", round))
 		shared := round%2 == 0
-		caches := make([]wazero.CompilationCache, c.N)
-		rts := make([]wazero.Runtime, c.N)
-		for i := range rts {
-			if shared && i > 0 {
-				caches[i] = caches[0]
-			} else {
-				cc, err := wazero.NewCompilationCacheWithDir(dir)
-				if err != nil {
-					return "", err
-				}
-				caches[i] = cc
-			}
-			rts[i] = wazero.NewRuntimeWithConfig(ctx, cachedConfig(caches[i]))
-		}
-		start := make(chan struct{})
 		errs := make([]error, c.N)
 		pans := make([]any, c.N)
+		start := make(chan struct{})
 		var wg sync.WaitGroup
-		for i := range rts {
-			wg.Add(1)
-			go func(i int) {
-				defer wg.Done()
-				<-start
-				_, errs[i], pans[i] = safeCompile(ctx, rts[i], mcs[i].wasm)
-			}(i)
-		}
-		close(start)
-		wg.Wait()
-		for i := range rts {
-			rts[i].Close(ctx)
-			if !shared || i == 0 {
-				caches[i].Close(ctx)
+		var infraMu sync.Mutex
+		var infraErr error
+		if shared {
+			// runtimes sharing one cache handle, one module each
+			cc, err := wazero.NewCompilationCacheWithDir(dir)
+			if err != nil {
+				return "", err
+			}
+			rts := make([]wazero.Runtime, c.N)
+			for i := range rts {
+				rts[i] = wazero.NewRuntimeWithConfig(ctx, cachedConfig(cc))
+				wg.Add(1)
+				go func(i int) {
+					defer wg.Done()
+					<-start
+					_, errs[i], pans[i] = safeCompile(ctx, rts[i], mcs[i].wasm)
+				}(i)
+			}
+			close(start)
+			wg.Wait()
+			for _, rt := range rts {
+				rt.Close(ctx)
+			}
+			cc.Close(ctx)
+		} else {
+			// users that open the directory themselves: each goroutine opens a cache object and
+			// compiles a module, twice (modules 2g and 2g+1), so that directories are opened while
+			// other users are in the middle of adding entries
+			for g := 0; g < (c.N+1)/2; g++ {
+				wg.Add(1)
+				go func(g int) {
+					defer wg.Done()
+					<-start
+					for i := 2 * g; i < 2*g+2 && i < c.N; i++ {
+						cc, err := wazero.NewCompilationCacheWithDir(dir)
+						if err != nil {
+							infraMu.Lock()
+							infraErr = err
+							infraMu.Unlock()
+							return
+						}
+						rt := wazero.NewRuntimeWithConfig(ctx, cachedConfig(cc))
+						_, errs[i], pans[i] = safeCompile(ctx, rt, mcs[i].wasm)
+						rt.Close(ctx)
+						cc.Close(ctx)
+					}
+				}(g)
+			}
+			close(start)
+			wg.Wait()
+			if infraErr != nil {
+				return "", infraErr
 			}
 		}
-		how := "separate cache handles on one directory"
+		how := "users opening their own cache object on one directory, two modules each"
 		if shared {
 			how = "runtimes sharing one cache handle"
 		}
-		what := fmt.Sprintf("%d goroutines compiling %d different modules concurrently (%s), round %d", c.N, c.N, how, round)
-		for i := range rts {
+		what := fmt.Sprintf("%d different modules compiled concurrently (%s), round %d", c.N, how, round)
+		for i := range errs {
 			if errs[i] != nil || pans[i] != nil {
 				return fmt.Sprintf("%s: module %d: CompileModule failed: err=%v panic=%v", what, i, errs[i], pans[i]), nil
 			}
